@@ -286,7 +286,9 @@ theorem rstep_cfg {s s' : St} {t : Nat} {f : Flag} {ev : List String} (h : rstep
     | (simp only [Option.some.injEq, Prod.mk.injEq] at h; obtain ⟨rfl, -⟩ := h; simp)
 
 theorem step_cfg {s s' : St} {tok : Tok} {ev : List String} (h : step s tok = some (s', ev)) : s'.cfg = s.cfg := by
-  unfold step at h
+  rcases step_cases h with ⟨-, q, rfl, -⟩ | h
+  · rfl
+  unfold stepMain at h
   split at h
   · cases h
   · split at h
@@ -297,9 +299,45 @@ theorem reach_cfg (c : Cfg) (s : St) (hr : Reach step (mkInit c) s) : s.cfg = c 
   Reach.inv (fun s => s.cfg = c) rfl (fun _ _ _ _ hi h => by rw [step_cfg h]; exact hi) s hr
 
 
+/-- the interrupted futex wait preserves the invariant: the parked thread holds neither lock, and
+the reader's position is the one it went to sleep with -/
+theorem spur_inv {s : St} {t : Nat} {q : Pc} (hi : Inv s)
+    (hq : (∃ rpos, s.pc t = .rBlocked rpos ∧ q = .rLdW rpos) ∨ (s.pc t = .wBlocked ∧ q = .wLock)) :
+    Inv { s with pc := upd s.pc t q } := by
+  have hcs : inCS q = inCS (s.pc t) := by
+    rcases hq with ⟨rpos, h1, rfl⟩ | ⟨h1, rfl⟩ <;> simp [h1, inCS]
+  have hrm : inRM q = inRM (s.pc t) := by
+    rcases hq with ⟨rpos, h1, rfl⟩ | ⟨h1, rfl⟩ <;> simp [h1, inRM]
+  have hnc : inCS (s.pc t) = false := by
+    rcases hq with ⟨rpos, h1, -⟩ | ⟨h1, -⟩ <;> simp [h1, inCS]
+  obtain ⟨h1, h2, h3, h4, h5, h6, h7, h8, h9, h10, h11, h12, h13, h14, h15⟩ := hi
+  refine ⟨h1, ?_, h3, ?_, h5, h6, h7, h8, h9, h10, ?_, ?_, h13, h14, h15⟩
+  · intro u
+    by_cases hu : u = t
+    · subst hu; simp only [upd_same, hcs]; exact h2 u
+    · simp only [upd_other _ _ _ _ hu]; exact h2 u
+  · intro u
+    by_cases hu : u = t
+    · subst hu; simp only [upd_same, hrm]; exact h4 u
+    · simp only [upd_other _ _ _ _ hu]; exact h4 u
+  · intro u hh
+    have hne : u ≠ t := by
+      intro e; subst e
+      have := ((h2 u).1 hh).2; rw [hnc] at this; cases this
+    simp only [upd_other _ _ _ _ hne]; exact h11 u hh
+  · by_cases hW : s.cfg.W = t
+    · subst hW
+      simp only [upd_same]
+      rcases hq with ⟨rpos, hp, rfl⟩ | ⟨hp, rfl⟩
+      · have := h12; rw [hp] at this; simpa [RLoc] using this
+      · simp [RLoc]
+    · simp only [upd_other _ _ _ _ hW]; exact h12
+
 theorem step_inv {s s' : St} {tok : Tok} {ev : List String} (hi : Inv s)
     (h : step s tok = some (s', ev)) : Inv s' := by
-  unfold step at h
+  rcases step_cases h with ⟨-, q, rfl, hq⟩ | h
+  · exact spur_inv hi hq
+  unfold stepMain at h
   split at h
   · cases h
   next hen =>
